@@ -27,7 +27,7 @@ for prop in ("C03", "C04"):
     open_("D27", prop, "a DELETE is silently skipped (and reports the row as deleted) while another transaction's delete of the row is pending: no write-write conflict is raised; if the other transaction then rolls back the row survives both", "O-state", "concurrent_writers_same_row", "findings/D27-delete-skipped-when-another-delete-pending.json")
     fixed("D27b", prop, "2194af4", "a DELETE was silently skipped when another transaction's delete of the row had been rolled back (the stale mark made Tuple::delete return early); index entries likewise, so a UNIQUE key stayed blocked", "O-res", "findings/D27b-delete-after-rolled-back-delete-is-skipped.json")
 open_("D6", "C03", "DROP TABLE inside a session destroys the table before commit (tree deallocated at statement time)", "O-state", "drop_table_inside_session", "findings/D6-drop-table-in-session-destroys-table.json")
-open_("D23", "C03", "in a session a multi-row INSERT whose 2nd row violates a constraint leaves the 1st row; COMMIT publishes it", "O-state", "failing_multi_row_statement_in_session", "findings/D23-failed-multi-row-insert-leaves-rows.json")
+fixed("D23", "C03", "6c3bffc", "in a session a multi-row INSERT whose 2nd row violates a constraint left the 1st row; COMMIT published it", "O-state", "findings/D23-failed-multi-row-insert-leaves-rows.json")
 open_("D7", "C03", "any UPDATE of a table that has a PRIMARY KEY / UNIQUE index fails with 'datatype mismatch ... BigUInt'", "O-res", "history_contains_update", "findings/D7-update-on-table-with-unique-index.json")
 open_("D24", "C03", "UPDATE of a column of a PRIMARY KEY table fails with 'unexpected data type: Int'", "O-res", "history_contains_update", "findings/D24-update-of-column-on-pk-table.json")
 open_("D25", "C03", "after UPDATE, a DELETE followed by a read in the same transaction shows the pre-update version again", "O-res", "history_contains_update", "findings/D25-own-delete-after-update-shows-old-version.json")
